@@ -34,3 +34,8 @@ Definition validN (t : list ainstr) : bool :=
   | _ => false
   end.
 Fixpoint sumN (l : list (list ainstr)) : Z := match l with [] => 0 | t :: r => pendingN t + sumN r end.
+
+(* n callers of the Requests admission (CanCreate ... Increase) and the schedule on which every one of them runs its
+   test before any of them counts: callers 0..n-1 test, then callers 0..n-1 increase *)
+Definition req_cfgN (n : nat) : adcfg := (repeat req_prog n, ad0).
+Definition all_test_then_all_count (n : nat) : list nat := seq 0 n ++ seq 0 n.
